@@ -59,8 +59,67 @@ def wellformed(b):
         return False
 
 
+def feed_pieces(argv, pieces, env, timeout=60):
+    """stdin = a pipe that receives `pieces` one write at a time with a pause between them (so that the tool's read() calls see the
+    boundaries; merged fragments only lose coverage); stdout/stderr to files"""
+    import subprocess, tempfile, time
+    with tempfile.TemporaryFile() as fo, tempfile.TemporaryFile() as fe:
+        p = subprocess.Popen(argv, stdin=subprocess.PIPE, stdout=fo, stderr=fe, env=env)
+        try:
+            for pc in pieces:
+                try:
+                    p.stdin.write(pc)
+                    p.stdin.flush()
+                except BrokenPipeError:
+                    break
+                time.sleep(0.03)
+            try:
+                p.stdin.close()
+            except BrokenPipeError:
+                pass
+            st = p.wait(timeout=timeout)
+        except subprocess.TimeoutExpired:
+            p.kill()
+            p.wait()
+            st = "HANG"
+        fo.seek(0)
+        fe.seek(0)
+        return (st if isinstance(st, str) or st >= 0 else "sig%d" % (-st)), fo.read(), fe.read()
+
+
+def crlf_fragments(ctx):
+    """CRLF text arriving through a pipe in fragments that END between a line's CR and its LF (and the same text in one piece, where the
+    6-byte look at the compression magic makes the first boundary): the filters must see the normalised lines -- a line of exactly
+    LIMIT bytes is kept, a well-formed line comes out without its CR, a subtrahend line is removed."""
+    rng = ctx.rng
+    sub = os.path.join(ctx.tmp, "crlf_sub.txt")
+    open(sub, "wb").write(b"gamma\nabcde\n")
+    for first in (b"abcde", b"abcd", b"abcdef", b"", b"gamma", b"\xc3\xa9t\xc3\xa9", b"x" * 4090):
+        ls = [first, b"gamma", b"delta\xff", b"abcde", b"", b"tail"]
+        data = b"".join(l + b"\r\n" for l in ls)
+        pieces, cur = [], b""
+        for l in ls:
+            pieces.append(cur + l + b"\r")
+            cur = b"\n"
+        pieces.append(cur)
+        for tool_, args, want in (("remove_long_lines", ["5"], text([l for l in ls if len(l) <= 5])),
+                                  ("remove_invalid_utf8", [], text([l for l in ls if wellformed(l)])),
+                                  ("subtract_lines", [sub], text([l for l in ls if l not in (b"gamma", b"abcde")]))):
+            for how, pcs in (("one piece", [data]), ("fragments ending between CR and LF", pieces)):
+                st, out, err = feed_pieces([ctx.bin(tool_)] + args, pcs, pvlib.san_env())
+                ctx.count("crlf-fragments", 1, [(tool_, first, how)])
+                if st != 0 or out != want:
+                    pvlib.report_violation(ctx, f"crlf:{tool_}:{hx(first)[:20]}:{how[:3]}", {"argv": [tool_] + (["<file: gamma, abcde>"] if tool_ == "subtract_lines" else args),
+                        "stdin_pieces_hex": [hx(x) for x in pcs], "got": hx(out)[:600], "want": hx(want)[:600], "status": st},
+                        summary=f"{tool_} {' '.join(args[:1]) if tool_ != 'subtract_lines' else '<gamma,abcde>'} on CRLF lines (first line {first[:12]!r}, {how}): "
+                                f"output {out[:60]!r}, the filter applied to the normalised lines gives {want[:60]!r} (status {st})")
+                    return
+
+
 def run(ctx):
     rollover_sets(ctx)
+    if not ctx.violations:
+        crlf_fragments(ctx)
     if ctx.violations:
         return
     rng = ctx.rng
@@ -361,6 +420,15 @@ def cleaning_model(ctx):
 
 
 def replay(ctx, rp):
+    if "stdin_pieces_hex" in rp:
+        argv = list(rp["argv"])
+        if argv[0] == "subtract_lines":
+            sub = os.path.join(ctx.tmp, "crlf_sub.txt")
+            open(sub, "wb").write(b"gamma\nabcde\n")
+            argv = ["subtract_lines", sub]
+        st, out, err = feed_pieces([ctx.bin(argv[0])] + argv[1:], [unhx(x) for x in rp["stdin_pieces_hex"]], pvlib.san_env())
+        print("status", st, "output", out[:300], "wanted", unhx(rp["want"])[:300])
+        return
     if "in0_hex" in rp:
         f = [os.path.join(ctx.tmp, n_) for n_ in ("pin0", "pin1", "pout0", "pout1")]
         open(f[0], "wb").write(unhx(rp["in0_hex"]))
